@@ -410,9 +410,9 @@ func genPool(maxTasks int) func(rt *rapid.T) PoolSc {
 		if p.Gated && rapid.Bool().Draw(rt, "late") {
 			p.Late = rapid.IntRange(1, 5).Draw(rt, "nlate")
 		}
-		if rapid.IntRange(0, 3).Draw(rt, "waiters") == 0 {
-			p.Waiters = 2
-		}
+		// (Waiters >= 2 - a second goroutine in Wait at the same time - is supported by the executor and
+		// by replays but NOT generated: concurrent waiters are not in C12's quantifier, the WorkerPool
+		// documentation is silent about them, and a pool whose Wait serves one caller is legitimate.)
 		if p.Gated {
 			ns := rapid.IntRange(0, 60).Draw(rt, "nsched")
 			for i := 0; i < ns; i++ {
